@@ -67,10 +67,14 @@ structure TEnv where
 
 inductive TH where
   | anyVecRef | anyVecMut | anyVecTyped
+  /-- the (unnameable) iterators `AnyVecTyped::drain` / `AnyVecTyped::splice` return: `Iter<AnyVecRawPtr<T, M>, _>`
+  inside, whose `unsafe impl Send / Sync` ask for `AnyVecTyped<T, M>: Send / Sync` -/
+  | typedDrain | typedSplice
   deriving Repr, DecidableEq
-def TH.all : List TH := [.anyVecRef, .anyVecMut, .anyVecTyped]
+def TH.all : List TH := [.anyVecRef, .anyVecMut, .anyVecTyped, .typedDrain, .typedSplice]
 def TH.name : TH → String
   | .anyVecRef => "AnyVecRef" | .anyVecMut => "AnyVecMut" | .anyVecTyped => "AnyVecTyped"
+  | .typedDrain => "TypedDrain" | .typedSplice => "TypedSplice"
 def TH.kind : TH → Kind
   | .anyVecRef => .shared
   | _ => .exclusive
